@@ -90,7 +90,7 @@ def seek_contract(total, state=None, prefix='C03/parse_v3'):
     return c
 
 
-def verify_chunk_loops(run, tier, wf=True, prefix='C03/parse_v3'):
+def verify_chunk_loops(run, tier, wf=True, prefix='C03/parse_v3', only=None):
     sess = Session()
     it = sess.it
     install_range(it)
@@ -215,7 +215,7 @@ def verify_chunk_loops(run, tier, wf=True, prefix='C03/parse_v3'):
         if wf:
             post_metadata(ctx, state, p, prefix, stm)
         return None
-    c02._explore(run, tier, sess, thunk, fq, prefix, allow_raise=not wf)
+    c02._explore(run, tier, sess, thunk, fq, prefix, allow_raise=not wf, only=only)
     return sess
 
 
